@@ -95,6 +95,19 @@ func (u *upT) UnmarshalText(data []byte) error   { return u.set(data) }
 func (u *upT) UnmarshalBinary(data []byte) error { return u.set(data) }
 func (u *upT) UnmarshalJSON(data []byte) error   { return u.set(data) }
 
+// T may itself be an interface type (one table mixing implementations): the helpers then see the
+// dynamic type of each case's value
+type allM interface {
+	MarshalText() ([]byte, error)
+	MarshalBinary() ([]byte, error)
+	MarshalJSON() ([]byte, error)
+}
+type allU interface {
+	UnmarshalText(data []byte) error
+	UnmarshalBinary(data []byte) error
+	UnmarshalJSON(data []byte) error
+}
+
 // a type with none of the interfaces
 type plainT struct{ ID int }
 
@@ -249,6 +262,15 @@ func init() {
 		t := &recT{}
 		escaped := try(func() {
 			switch {
+			case iface && recv == "ifacetype" && dir == "marshal":
+				runHelper(t, dir, enc, cs, func(i int) allM {
+					if i%2 == 0 {
+						return mvT{ID: i}
+					}
+					return &mpT{ID: i}
+				})
+			case iface && recv == "ifacetype":
+				runHelper(t, dir, enc, cs, func(i int) allU { return &upT{Got: "right"} })
 			case !iface && recv != "ptrmeth":
 				runHelper(t, dir, enc, cs, func(i int) plainT { return plainT{ID: i} })
 			case dir == "marshal" && recv == "ptrmeth":
@@ -318,8 +340,12 @@ func init() {
 				}
 				cases[j] = c
 			}
+			recv, has := []string{"value", "pointer", "ifacetype"}[d.R.Intn(3)], d.R.Intn(12) != 0
+			if recv == "ifacetype" {
+				has = true
+			}
 			d.Do(Ev{"op": "helper.run", "dir": []string{"marshal", "unmarshal"}[d.R.Intn(2)], "enc": []string{"Text", "Binary", "JSON"}[d.R.Intn(3)],
-				"recv": []string{"value", "pointer"}[d.R.Intn(2)], "iface": d.R.Intn(12) != 0, "cases": cases})
+				"recv": recv, "iface": has, "cases": cases})
 			d.S.Boundary()
 		}
 	}
